@@ -30,7 +30,9 @@ sys.path.insert(0, str(core.VERIF / "translator"))
 
 C20 = core.THEORIES / "C20"
 GEN = core.THEORIES / "Gen"
-PROP_FILES = [C20 / "Props.v", C20 / "PerRun.v"]
+PROP_FILES = [C20 / "Props.v"]          # generic part: in _CoqProject, built by make
+PER_RUN = C20 / "PerRun.v"              # depends on Gen/*: compiled by this check, never by setup's make
+GEN_CHAIN = [GEN / "C20_Schema.v", GEN / "C20_Builders.v", C20 / "Eval.v"]
 PREAMBLE = ("From SV Require Import C20.CfgTree Gen.C20_Schema Gen.C20_Builders C20.Eval.\n"
             "From Coq Require Import List String ZArith QArith.\nImport ListNotations.\nOpen Scope string_scope.\n")
 
@@ -743,29 +745,57 @@ def regenerate(run):
 
 
 def coq_status(run):
-    """Which of the dichotomy theorems of PerRun.v is the live one on this tree."""
+    """Which member of each dichotomy of PerRun.v is the live one on this tree."""
     pre = PREAMBLE + "From SV Require Import C20.PerRun.\n"
     try:
-        vals = core.coq_eval_lines(pre, "render_lines rbool [aug_geo_full_b; convnext_sizes_validated_b; presets_convert_b]")
-        return {"aug_geo_full": vals[0], "convnext_sizes_validated": vals[1], "presets_convert": vals[2]}
+        vals = core.coq_eval_lines(pre, "render_lines rbool [aug_geo_full_b; aug_geo_exhaustive4_b; "
+                                        "convnext_sizes_validated_b; presets_convert_b]")
+        return {"aug_geo_full": vals[0], "aug_geo_exhaustive4": vals[1], "convnext_sizes_validated": vals[2],
+                "presets_convert": vals[3]}
     except Exception as e:  # pragma: no cover
         run.obligation("evaluate status booleans of PerRun.v", False, str(e)[-800:])
         return None
 
 
+def build_generated(run):
+    """Gen/C20_*.v, Eval.v (always recompiled: cheap) and the per-run statement file."""
+    for f in GEN_CHAIN:
+        rc, out = core.coqc(f, timeout=600)
+        if rc != 0:
+            run.obligation(f"compile {f.relative_to(core.VERIF)} (regenerated model)", False, out[-1500:])
+            return False, False
+    run.obligation("compile the regenerated model (Gen/C20_Schema.v, Gen/C20_Builders.v, C20/Eval.v)", True)
+    res = core.check_props(PER_RUN, timeout=1500)
+    ok = res["rc"] == 0 and not res["foreign_axioms"] and not res.get("unprinted")
+    if res["rc"] == 0:
+        for n in res["printed"]:
+            run.obligation(f"theorem {n} (per run, about the regenerated functions)", True)
+            run.axioms.update(res["axioms"].get(n, []))
+        if res["foreign_axioms"]:
+            run.obligation("PerRun.v: only standard-library axioms", False, "; ".join(res["foreign_axioms"]))
+        if res.get("unprinted"):
+            run.obligation("PerRun.v: every theorem has Print Assumptions", False, ", ".join(res["unprinted"]))
+    else:
+        run.obligation("compile C20/PerRun.v: the per-run theorems about the regenerated schema and builders "
+                       "(pass-through, defaults, augmentation lists, validators, normalisation)", False, res["log_tail"])
+    run.coverage.setdefault("prop_files", []).append({k: res[k] for k in ("file", "rc", "printed", "wall_s")})
+    return True, ok
+
+
 def check(run: core.Run) -> int:
     summary = regenerate(run)
-    built = False
-    if summary is not None:
-        built = run.build_and_prove([p for p in PROP_FILES if p.exists()], extra_targets=["theories/C20/Eval.vo"])
+    model_ok, perrun_ok = False, False
+    generic_ok = run.build_and_prove(PROP_FILES)
+    if summary is not None and generic_ok:
+        model_ok, perrun_ok = build_generated(run)
     impl = Impl()
     try:
-        return _check(run, impl, summary, built)
+        return _check(run, impl, summary, model_ok, perrun_ok)
     finally:
         impl.close()
 
 
-def _check(run, impl, summary, built):
+def _check(run, impl, summary, built, perrun_ok):
     cases, sent = gen_cases(run, impl)
     # implementation
     for c in cases:
@@ -935,14 +965,22 @@ def _check(run, impl, summary, built):
     replayed = replay_corpus(run, impl)
 
     # status of the dichotomy theorems, cross-checked against the implementation's behaviour on the witnesses
-    if built and (C20 / "PerRun.v").exists():
+    if perrun_ok:
         st = coq_status(run)
         if st is not None:
             run.coverage["perrun_status"] = st
+            run.coverage["live_theorems"] = {
+                "F12": "aug_lists_full" if st["aug_geo_full"] else "aug_lists_refuted + aug_lists_partial",
+                "F16": "convnext_sizes_full" if st["convnext_sizes_validated"] else "convnext_sizes_refuted",
+                "F13": "presets_convert_full" if st["presets_convert"] else "presets_convert_refuted + presets_convert_partial"}
+            run.obligation("clause (c): the unbounded reachability check and the bounded exhaustive search (all ordered "
+                           "lists of distinct geometric names up to length 4) agree", st["aug_geo_full"] == st["aug_geo_exhaustive4"],
+                           str(st))
             live = {"aug_geo_full": not replayed["F12"], "convnext_sizes_validated": not replayed["F16"],
                     "presets_convert": not replayed["F13"]}
+            got = {k: st[k] for k in live}
             run.obligation("status of the per-run dichotomies (computed on the generated model) agrees with the "
-                           "implementation on the witnesses", st == live, f"model {st} impl {live}")
+                           "implementation on the witnesses", got == live, f"model {got} impl {live}")
 
     kinds = {}
     for c in cases:
